@@ -285,7 +285,7 @@ func (p c07) Run(c *core.Ctx) {
 				return nil
 			}
 		case "waiting-for-command":
-			if err := rc.R.DR.RestoreAt(&ysgo.Snapshot{CurrentNode: limboNode}); err != nil {
+			if err := rc.R.RestoreAt(&ysgo.Snapshot{CurrentNode: limboNode}); err != nil {
 				return nil
 			}
 			if o := rc.R.Once(0); o.Kind != mon.KWaiting {
@@ -293,7 +293,7 @@ func (p c07) Run(c *core.Ctx) {
 			}
 		case "restored-before":
 			other := saves[r.Intn(len(saves))]
-			if err := rc.R.DR.RestoreAt(other.snap); err != nil {
+			if err := rc.R.RestoreAt(other.snap); err != nil {
 				return nil
 			}
 			rc.M.Restore(other.check)
@@ -348,7 +348,7 @@ func (p c07) Run(c *core.Ctx) {
 			defer func() { c.Feature("host-modified-a-restored-snapshot") }()
 			defer vandalize(given)
 		}
-		if err := rc.R.DR.RestoreAt(given); err != nil {
+		if err := rc.R.RestoreAt(given); err != nil {
 			fail(rc, "RestoreAt refused a snapshot of the same script: "+err.Error(), map[string]any{"snapshot": fmt.Sprint(*s.copy), "receiver": state})
 			return false
 		}
@@ -441,7 +441,7 @@ func (p c07) Run(c *core.Ctx) {
 		} else {
 			node := prog.Nodes[r.Intn(len(prog.Nodes)-1)].Title // not the Limbo node
 			hand := &ysgo.Snapshot{CurrentNode: node}
-			if err := rc.R.DR.RestoreAt(hand); err != nil {
+			if err := rc.R.RestoreAt(hand); err != nil {
 				fail(rc, "RestoreAt refused a hand-built snapshot naming an existing node: "+err.Error(), nil)
 				return
 			}
@@ -467,7 +467,11 @@ func (p c07) Run(c *core.Ctx) {
 			storeBefore[k], _ = mon.ToVal(&v)
 		}
 		bad := &ysgo.Snapshot{CurrentNode: "NoSuchNode", Variables: map[string]variable.Value{"intruder": *variable.NewNumber(1)}, VisitedNodes: map[string]int{"Start": 99}}
-		err := rc.R.DR.RestoreAt(bad)
+		err := rc.R.RestoreAt(bad)
+		if pe, ok := err.(*mon.PanicErr); ok {
+			fail(rc, "RestoreAt panicked on a snapshot naming an unknown node", map[string]any{"panic": pe.Text})
+			return
+		}
 		if err == nil {
 			fail(rc, "RestoreAt accepted a snapshot naming an unknown node", nil)
 			return
